@@ -76,3 +76,33 @@ Fixpoint zip_items (cols : list (list val)) (start len : nat) (t : isplit) : lis
       let i' := Nat.min i len in
       zip_items cols start i' a ++ zip_items cols (start + i') (len - i') b
   end.
+
+(** * The zip with [RepeatNone] among the producers: a column is either the values of a
+      present component or [RepeatNone count]; every producer is split at the same index
+      ([RepeatNone]'s own [split_at i] gives lengths [i] and [count - i]); a leaf zips its
+      producers up to the shortest one *)
+Inductive pcol := PVals (l : list val) | PNone (count : nat).
+
+Definition pcol_len (c : pcol) : nat := match c with PVals l => length l | PNone n => n end.
+Definition pcol_split (i : nat) (c : pcol) : pcol * pcol :=
+  match c with
+  | PVals l => (PVals (firstn i l), PVals (skipn i l))
+  | PNone n => (PNone (Nat.min i n), PNone (n - Nat.min i n))
+  end.
+Definition pcol_item (c : pcol) (r : nat) : option val :=
+  match c with PVals l => nth_error l r | PNone _ => None end.
+
+Definition min_len (cols : list pcol) (len : nat) : nat := fold_right (fun c m => Nat.min (pcol_len c) m) len cols.
+
+(** the rows a leaf hands out: one per index below the shortest producer *)
+Definition leaf_rows (cols : list pcol) (len : nat) : list (list (option val)) :=
+  map (fun r => map (fun c => pcol_item c r) cols) (seq 0 (min_len cols len)).
+
+Fixpoint pzip_items (cols : list pcol) (len : nat) (t : isplit) : list (list (option val)) :=
+  match t with
+  | ILeafN => leaf_rows cols len
+  | INodeN i a b =>
+      let i' := Nat.min i len in
+      pzip_items (map (fun c => fst (pcol_split i' c)) cols) i' a ++
+      pzip_items (map (fun c => snd (pcol_split i' c)) cols) (len - i') b
+  end.
